@@ -98,6 +98,12 @@ def configs(tier, seed):
                 kinds = [rnd.choice(["num", "fa"]) for _ in range(3)]
                 out.append(dict(h="history", op="hist3", key=f"history3/{shape}/" + ">".join(f"{sel_key(sels[i])}:{k}" for i, k in zip(seq, kinds)),
                                 td=td, lens=lens, seq=[[list(s) for s in sels[i]] for i in seq], kinds=list(kinds)))
+    # key forms met in the wild: tuple keys with non-adjacent items of one dimension, labels that are falsy in Python
+    from checks import c06 as _c06
+
+    for c in _c06.configs("quick", seed):
+        if c["h"] in ("tuple_key", "falsy_label") and c.get("rhs", "number") != "read":
+            out.append(dict(c, td=c["xd"]))
     seen, res = set(), []
     for c in out:
         if c["key"] not in seen:
@@ -147,6 +153,10 @@ def _assert_unchanged(w, tag, t, T, td, shape):
 def run(cfg, w):
     from flodym import FlodymArray, Dimension, DimensionSet
 
+    if cfg["h"] in ("tuple_key", "falsy_label"):
+        from checks import c06 as _c06
+
+        return _c06.run(cfg, w)
     td, lens = cfg["td"], cfg["lens"]
     dims_all = {l: make_dim(l, lens.get(l, 2)) for l in "abcde"}
     shape = tuple(lens[l] for l in td)
